@@ -7,6 +7,7 @@ import AmqModel.Driver.MachineEngine
 import AmqModel.Driver.ApiEngine
 import AmqModel.Driver.HandshakeEngine
 import AmqModel.Driver.HeartbeatEngine
+import AmqModel.Driver.ObeyEngine
 namespace AmqModel.Driver
 
 def engineByName : String → Option Engine
@@ -25,6 +26,7 @@ def engineByName : String → Option Engine
   | "hs" => some handshakeEngine
   | "hs-legacy" => some handshakeLegacyEngine
   | "heartbeat" => some heartbeatEngine
+  | "obey" => some obeyEngine
   | _ => none
 
 end AmqModel.Driver
